@@ -50,6 +50,7 @@ CFG = {
     "compare": _agree,
     "nontrivial": _nontrivial,
     "gen_timeout": 2400,
+    "search_budget_s": 120,
     "rule": "cases `sa`: random UTxO layouts (pure ADA, many policies, many assets per policy, 0-32 byte names, dust, Byron / base / "
             "enterprise / pointer owners with shared and distinct keys, quantities at CBOR width boundaries, totals around 2^32) x parameter "
             "configurations (fee coefficients, coins_per_utxo_byte, small max_value_size to force splitting, small max_tx_size to force many "
